@@ -92,7 +92,14 @@ pub fn get_diff_ratio(ops: &[DiffOp], old_len: usize, new_len: usize) -> f32 {
     if len == 0 {
         1.0
     } else {
-        2.0 * matches as f32 / len as f32
+        let ratio = 2.0 * matches as f32 / len as f32;
+        // for very long sequences the f32 rounds to 1.0 before everything
+        // matches; only a complete match may report 1.0.
+        if ratio >= 1.0 && matches.saturating_mul(2) < len {
+            1.0 - f32::EPSILON / 2.0
+        } else {
+            ratio
+        }
     }
 }
 
